@@ -255,10 +255,12 @@ func (n *node) RouteSendEvent(from gen.PID, token gen.Ref, options gen.MessageOp
 		}
 
 		if event.last != nil {
+			lib.VerifPoint("event.push", from)
 			event.last.Push(message)
 		}
 	}
 
+	lib.VerifPoint("event.consumers", from)
 	consumers := n.targetManager.GetConsumersForTarget(message.Event)
 	remote := make(map[gen.Atom]bool)
 	// local delivery
@@ -786,6 +788,7 @@ func (n *node) RouteLinkEvent(pid gen.PID, target gen.Event) ([]gen.MessageEvent
 
 		event := value.(*eventOwner)
 		lib.VerifPoint("route.add", pid)
+		lib.VerifPoint("event.insert", pid)
 		if err := n.targetManager.AddLink(pid, target); err != nil {
 			return nil, err
 		}
@@ -798,6 +801,7 @@ func (n *node) RouteLinkEvent(pid gen.PID, target gen.Event) ([]gen.MessageEvent
 
 		if event.last != nil {
 			// load last N events
+			lib.VerifPoint("event.bufsnap", pid)
 			item := event.last.Item()
 			for {
 				if item == nil {
@@ -809,6 +813,7 @@ func (n *node) RouteLinkEvent(pid gen.PID, target gen.Event) ([]gen.MessageEvent
 			}
 		}
 
+		lib.VerifPoint("event.counter", pid)
 		c := atomic.AddInt32(&event.consumers, 1)
 		if event.notify == false || c > 1 {
 			return lastEventMessages, nil
@@ -862,6 +867,7 @@ func (n *node) RouteUnlinkEvent(pid gen.PID, target gen.Event) error {
 			return err
 		}
 
+		lib.VerifPoint("event.counter", pid)
 		c := atomic.AddInt32(&event.consumers, -1)
 		if event.notify == false || c > 0 {
 			return nil
@@ -1126,6 +1132,7 @@ func (n *node) RouteMonitorEvent(pid gen.PID, target gen.Event) ([]gen.MessageEv
 		}
 		event := value.(*eventOwner)
 		lib.VerifPoint("route.add", pid)
+		lib.VerifPoint("event.insert", pid)
 		if err := n.targetManager.AddMonitor(pid, target); err != nil {
 			return nil, err
 		}
@@ -1138,6 +1145,7 @@ func (n *node) RouteMonitorEvent(pid gen.PID, target gen.Event) ([]gen.MessageEv
 
 		if event.last != nil {
 			// load last N events
+			lib.VerifPoint("event.bufsnap", pid)
 			item := event.last.Item()
 			for {
 				if item == nil {
@@ -1149,6 +1157,7 @@ func (n *node) RouteMonitorEvent(pid gen.PID, target gen.Event) ([]gen.MessageEv
 			}
 		}
 
+		lib.VerifPoint("event.counter", pid)
 		c := atomic.AddInt32(&event.consumers, 1)
 		if event.notify == false || c > 1 {
 			return lastEventMessages, nil
@@ -1203,6 +1212,7 @@ func (n *node) RouteDemonitorEvent(pid gen.PID, target gen.Event) error {
 
 		// notify producer
 		event := value.(*eventOwner)
+		lib.VerifPoint("event.counter", pid)
 		c := atomic.AddInt32(&event.consumers, -1)
 		if event.notify == false || c > 0 {
 			return nil
